@@ -223,7 +223,7 @@ def r80(F):
                    "VM::fcall_impl pops one value per parameter from the caller's stack: every call site is dominated by a comparison of "
                    "the number of values pushed with the callee's parameter count whose unequal edge is an error", floor=10)
     cg = callgraph.get(F)
-    sites = cg.call_sites(VM + "fcall_impl")
+    sites = [(n, b) for n, b, via in util.expanded_call_sites(F, cg, VM + "fcall_impl")]
     need(len(sites) >= 10, "fcall_impl call sites not found")
     chk_name = RT + "check_callback_arity"
     # the checker itself: bindings.len() != expected -> Err
